@@ -113,6 +113,21 @@ namespace embedded_pairing::bls12_381 {
         /* The "read_big_endian" method masks off the three control bits. */
         g.x.read_big_endian(&this->data[0]);
 
+        /*
+         * The "read_big_endian" method also reduces modulo the prime, so a
+         * coordinate that is not below the modulus (or that has stray top
+         * bits) would be accepted as an alias of the reduced value. In checked
+         * mode, only the canonical byte representation is accepted.
+         */
+        uint8_t canonical[sizeof(typename Affine::BaseFieldType)];
+        if (checked) {
+            g.x.write_big_endian(canonical);
+            canonical[0] |= (this->data[0] & (encoding_flags_compressed | encoding_flags_infinity | encoding_flags_greater));
+            if (memcmp(canonical, &this->data[0], sizeof(canonical)) != 0) {
+                return false;
+            }
+        }
+
         bool greater = ((this->data[0] & encoding_flags_greater) != 0);
         if constexpr(compressed) {
             if (!g.get_point_from_x(g.x, greater, checked)) {
@@ -123,6 +138,12 @@ namespace embedded_pairing::bls12_381 {
                 return false;
             }
             g.y.read_big_endian(&this->data[sizeof(typename Affine::BaseFieldType)]);
+            if (checked) {
+                g.y.write_big_endian(canonical);
+                if (memcmp(canonical, &this->data[sizeof(typename Affine::BaseFieldType)], sizeof(canonical)) != 0) {
+                    return false;
+                }
+            }
             g.infinity = false;
         }
 
